@@ -748,16 +748,70 @@ def settings_unit(ctx, unit):
     ctx.sample({'arrangements': arrangements})
 
 
+_FIRST_PAGE = r'''
+import io, sys
+import ombott
+order = sys.argv[1].split(',')
+apps = {}
+for name, debug in (('quiet', False), ('talkative', True), ('quiet2', None)):
+    a = ombott.Ombott({'debug': debug})
+    a.route('/crash', 'GET', lambda name=name: 1 / 0)
+    apps[name] = a
+def ask(app, path):
+    out = {}
+    env = {'REQUEST_METHOD': 'GET', 'PATH_INFO': path, 'QUERY_STRING': '', 'SERVER_NAME': 'h', 'SERVER_PORT': '80', 'wsgi.url_scheme': 'http',
+           'SERVER_PROTOCOL': 'HTTP/1.1', 'wsgi.input': io.BytesIO(), 'wsgi.errors': io.StringIO(), 'wsgi.version': (1, 0),
+           'wsgi.multithread': True, 'wsgi.multiprocess': False, 'wsgi.run_once': False}
+    body = b''.join(app(env, lambda s, h, e=None: out.update(status=s)))
+    return out['status'], body
+for step in order:
+    name, path = step.split(':')
+    st, body = ask(apps[name], path)
+    import re
+    print(step, st, 'ZeroDivisionError' in body.decode('utf8', 'replace'), 'Traceback' in body.decode('utf8', 'replace'), len(re.sub(rb'0x[0-9a-f]+|line \d+', b'', body)))
+'''
+
+
+def first_page_unit(ctx, unit):
+    """Which application renders the *first* error page of a process (and in which mode) is nobody else's business: every order of first
+    pages is run in a process of its own, and each application's page is compared with the one it renders when it is the first."""
+    import subprocess
+    import sys
+    from vmon.probes import REPO
+    steps = ['quiet:/nothing', 'quiet:/crash', 'talkative:/crash', 'talkative:/nothing', 'quiet2:/crash']
+
+    def run(order):
+        r = subprocess.run([sys.executable, '-c', _FIRST_PAGE, ','.join(order)], capture_output=True, text=True, timeout=120,
+                           env=dict(os.environ, PYTHONPATH=REPO, PYTHONDONTWRITEBYTECODE='1'))
+        if r.returncode != 0:
+            raise AssertionError('harness: first-page child failed: ' + r.stderr[-400:])
+        return dict(ln.split(' ', 1) for ln in r.stdout.strip().splitlines())
+    alone = {}
+    for st in steps:
+        alone.update(run([st]))
+    import itertools as _it
+    for a, b in _it.permutations(steps, 2):
+        got = run([a, b])
+        ctx.case(('first-page', a, b), nontrivial=True)
+        ctx.count('orders_of_first_error_pages_in_a_fresh_process')
+        if got[b] != alone[b]:
+            ctx.violation('applications-interfere:first-error-page-of-the-process', f'{b} after {a}: status / shows exception / shows traceback / size = {got[b]}; as the first page of a process: {alone[b]}',
+                          {'unit': {'kind': 'note', 'first': a, 'then': b}})
+    ctx.sample({'steps': steps, 'alone': alone})
+
+
 def plan(tier, seed):
     if tier == 'quick':
-        return [{'kind': 'single'}, {'kind': 'settings'}, {'kind': 'threaded', 'pairs': [('A', 'B')], 'stride': 1}, {'kind': 'threaded', 'pairs': [('D', 'A')], 'stride': 2},
+        return [{'kind': 'single'}, {'kind': 'settings'}, {'kind': 'first_page'}, {'kind': 'threaded', 'pairs': [('A', 'B')], 'stride': 1}, {'kind': 'threaded', 'pairs': [('D', 'A')], 'stride': 2},
                 {'kind': 'threaded', 'pairs': [('B', 'D')], 'stride': 3}]
     pairs = [('A', 'B'), ('B', 'A'), ('D', 'A'), ('A', 'D'), ('B', 'D'), ('D', 'B')]   # one application on several threads is C08
-    return [{'kind': 'single'}, {'kind': 'settings'}] + [{'kind': 'threaded', 'pairs': [p], 'stride': 1} for p in pairs]
+    return [{'kind': 'single'}, {'kind': 'settings'}, {'kind': 'first_page'}] + [{'kind': 'threaded', 'pairs': [p], 'stride': 1} for p in pairs]
 
 
 def run_unit(ctx, unit):
     k = unit['kind']
+    if k == 'first_page':
+        return first_page_unit(ctx, unit)
     if k == 'single':
         single_unit(ctx, unit)
     elif k == 'threaded':
